@@ -118,6 +118,11 @@ def choose_code(sc, rng, allow_ref):
     a = code_name(g)
     if a is None:
         return plain
+    # a name that another import line of the patch declares as a metavariable would be that metavariable in
+    # the code of the patch, not the literal package name (x/p and y/p share the name p): no such patch is written
+    metas = {pi["name"] for pi in sc["pimps"] if pi["form"] == "meta"}
+    if g["form"] != "meta" and a in metas:
+        return plain
     fa = a
     if g["form"] == "meta":
         fi = [f for f in sc["fimps"] if f["path"] == g["path"]]
@@ -128,7 +133,7 @@ def choose_code(sc, rng, allow_ref):
             fa = ln
     b = a
     plus = [pi for pi in sc["pimps"] if pi["side"] == "plus"]
-    if plus and code_name(plus[0]) is not None:
+    if plus and code_name(plus[0]) is not None and not (plus[0]["form"] != "meta" and code_name(plus[0]) in metas):
         b = code_name(plus[0])
     return ("%s.Old()" % a, "%s.New()" % b, "%s.Old()" % fa)
 
